@@ -13,8 +13,18 @@ def run(ctx):
     q = ctx.quick()
     # assignments of secrets to hosts across ingresses (shared, conflicting, wildcard + exact, absent, malformed) and
     # secret add / update / delete histories: TLC-simulated over the TLS-heavy templates
-    hs = ctl.tlc_histories(ctx, 500 if q else 10000, maxops=3, maxbatches=3, tag="tls", tmpls=TLS_TMPLS,
-                           opts=[dict(shards=0, watchwithoutclass=True), dict(shards=0, watchwithoutclass=True, defaultcrt="d/dflt")])
+    opts = [dict(shards=0, watchwithoutclass=True), dict(shards=0, watchwithoutclass=True, defaultcrt="d/dflt")]
+    hs = ctl.tlc_histories(ctx, 400 if q else 8000, maxops=3, maxbatches=3, tag="tls", tmpls=TLS_TMPLS, opts=opts)
+    # two secrets holding the same certificate, renewed together: the values w1/w2 have the same content in every secret
+    hs += [dict(h, id=h["id"] + "s") for h in ctl.tlc_histories(ctx, 250 if q else 4000, maxops=3, maxbatches=3, tag="tlsshared", tmpls=["t4", "t5", "t7", "t9"], opts=opts,
+                                                               secvals=("w1", "w2", "absent"))]
+    # directed behaviours of Controller!Next: both secrets in use hold the same certificate and are renewed in one batch
+    E = lambda k, n, v: dict(k=k, n=n, v=v)
+    for i, (ta, tb) in enumerate([("t4", "t5"), ("t9", "t7"), ("t4", "t7"), ("t9", "t5")]):
+        beh = [dict(ops=[E("ing", 1, ta), E("ing", 2, tb), E("sec", "c1", "w1"), E("sec", "c2", "w1")], fault="none"),
+               dict(ops=[E("sec", "c1", "w2"), E("sec", "c2", "w2")], fault="none"),
+               dict(ops=[E("sec", "c2", "w1"), E("sec", "c1", "w1")], fault="none")]
+        hs.append(ctl.with_cluster("directed-shared-%d" % i, beh, opt=dict(opts[i % 2])))
     for h in hs:
         if h["opt"].get("defaultcrt"):
             h["steps"][0]["ops"].insert(0, U.op_sec("dflt", "crt:dflt"))
@@ -26,7 +36,7 @@ def run(ctx):
     st = json.loads(p.stdout.strip().splitlines()[-1])
     ctx.traces_validated += st["histories"]
     n = core.count_lines(out)
-    cfg = ctl.controller_cfg([1, 2, 3], list(U.ING), 0, 0, ["Result"], spec="TraceSpec", secvals=("absent", "v1", "v2", "bad"), epsids=tuple(U.EPS),
+    cfg = ctl.controller_cfg([1, 2, 3], list(U.ING), 0, 0, ["Result"], spec="TraceSpec", secvals=("absent", "v1", "v2", "bad", "w1", "w2"), epsids=tuple(U.EPS),
                              extra='    JudgeWhat = "certs"')
     r = core.tlc(ctx, "judge-certs", "TraceRouting", None, cfgtext=cfg, workers=1, timeout=3400, files={out: "trace.ndjson"}, heap="8g")
     m = re.findall(r'<<"RESULT", "(.*)">>', r["out"])
@@ -58,7 +68,7 @@ def run(ctx):
     sample = [dict(cluster=states[-1]["cluster"], crtlist=[dict(c=c["c"], cur=c["cur"], filters=["".join(f) for f in c["filters"]]) for c in states[-1]["routing"]["crtlist"]])]
     core.write_evidence(ctx, sample, extra=dict(cluster_states=len(states), sni_names_judged=len(states) * len(U.REQ_SNI), secret_events_after_start=rot,
                         bounds="TLC-simulated histories over 3 ingress slots x 8 TLS-heavy templates (shared and conflicting secrets, tls-only ingress, "
-                               "wildcard + exact host), 2 secrets x {absent, v1, v2, malformed}, with and without --default-ssl-certificate; SNI names %s"
+                               "wildcard + exact host), 2 secrets x {absent, v1, v2, malformed, and two values whose content is the same in both secrets}, with and without --default-ssl-certificate; SNI names %s"
                                % [n for n, _ in U.REQ_SNI]),
                         assumptions=["crt-list selection semantics as transcribed in Routing!SNI", "certificates are identified by their first PEM block",
                                      "forbidden cross-namespace secrets are covered by C09"])
